@@ -386,6 +386,11 @@ def generate(vc_path, out_dir, canary=False):
                 g = glob.glob(os.path.expanduser("~/.cargo/registry/src/*/" + rel[4:]))
                 if not g:
                     raise LostAnchor("dependency source %s not found" % rel)
+                # the dependency version must be the one pinned in /repo/Cargo.lock
+                m = re.match(r"dep:([A-Za-z0-9_-]+?)-(\d[^/]*)/", rel)
+                lock = open(os.path.join(REPO, "Cargo.lock")).read() if os.path.exists(os.path.join(REPO, "Cargo.lock")) else ""
+                if m and not re.search(r'name = "%s"\nversion = "%s"' % (re.escape(m.group(1)), re.escape(m.group(2))), lock):
+                    raise LostAnchor("Cargo.lock does not pin %s %s" % (m.group(1), m.group(2)))
                 p = g[0]
             if not os.path.exists(p):
                 raise LostAnchor("source file %s not found" % rel)
